@@ -121,9 +121,18 @@ def main(run):
             gen_errors.append(f"rand{k}")
     # tensor-valued families for Inner
     tfams = []
+    tensor_terms = {
+        (2,): [ufl.SpatialCoordinate(m) for m in world.meshes] + [ufl.FacetNormal(world.m1), ufl.FacetNormal(world.m2)],
+        (2, 2): [ufl.Identity(2), ufl.PermutationSymbol(2), ufl.Jacobian(world.m1), ufl.JacobianInverse(world.m1),
+                 ufl.Jacobian(world.m2), ufl.JacobianInverse(world.m2)],
+        (3,): [],
+        (3, 3): [ufl.Identity(3)],
+        (2, 2, 2): [],
+    }
     for sh in [(2,), (2, 2), (3,), (3, 3)]:
         tfams.append((f"tensors{sh}", [t for t in world.coefs[sh]] + list(world.consts.get(sh, [])) +
-                      list(world.args.get(sh, []))))
+                      list(world.args.get(sh, [])) + tensor_terms[sh]))
+    tfams.append(("tensors(3, 3, 3)", [ufl.PermutationSymbol(3)]))
     for k in range(12 if tier == "quick" else 100):
         sh = [(2,), (2, 2), (3,)][k % 3]
         try:
@@ -163,12 +172,20 @@ def main(run):
         return ta, tb, dist, al
 
     def check_ctor(a, b, ta, tb, dist, al):
-        if not (closed_scalar(a) and closed_scalar(b)):
+        try:
+            summable = (a.ufl_shape == b.ufl_shape and a.ufl_free_indices == b.ufl_free_indices and
+                        a.ufl_index_dimensions == b.ufl_index_dimensions)
+        except Exception:      # noqa: BLE001  (ExprList, Label, ... have no shape)
+            return
+        if not summable:
             return
         if isinstance(a, Zero) or isinstance(b, Zero):
             return
         b2, a2 = clone(b), clone(a)
-        for nm, op, cls, tc in (("sum", lambda x, y: x + y, Sum, tcS), ("product", lambda x, y: x * y, Product, tcP)):
+        ops = [("sum", lambda x, y: Sum(x, y), Sum, tcS)]
+        if closed_scalar(a) and closed_scalar(b):
+            ops.append(("product", lambda x, y: x * y, Product, tcP))
+        for nm, op, cls, tc in ops:
             s1, s2 = op(a, b), op(b2, a2)
             if dist and al and not (s1 == s2):
                 viol.append((nm + "-swap", {"a": describe(a), "b": describe(b), "a op b": describe(s1),
@@ -247,7 +264,9 @@ def main(run):
             check_triple(fam, [es[i] for i in ix], emit=keep is None or n in keep)
     for fam, es in tfams:
         for a, b in itertools.combinations(es, 2):
-            check_pair(fam, a, b)
+            ta, tb, dist, al = check_pair(fam, a, b)
+            check_ctor(a, b, ta, tb, dist, al)
+            check_ctor(b, a, tb, ta, dist, al)
             check_inner(a, b)
             check_inner(b, a)
 
@@ -335,6 +354,9 @@ def main(run):
             coq_fail.append((os.path.basename(res.path), res.failing_lemma(), (res.err or "")[-300:]))
 
     # -- verdict
+    prio = {"sum-swap": 0, "product-swap": 0, "inner-swap": 0, "inner-nontermination": 1, "antisymmetry": 1,
+            "reflexivity": 2, "clone": 2, "transitivity": 3, "indistinct": 4}
+    viol.sort(key=lambda v: prio.get(v[0], 5))
     reported = set()
     for kind, data in viol:
         if kind in reported and len(reported) > 0 and sum(1 for _ in run.violations) >= 6:
@@ -342,7 +364,12 @@ def main(run):
         reported.add(kind)
         data = dict(data)
         data["violated"] = kind
-        data["reproduce"] = "bin/check C29  (expressions are given by their eval()-able repr)"
+        data["failing_input"] = {x: data[x]["repr"] for x in ("a", "b", "c") if isinstance(data.get(x), dict)}
+        data["observed"] = {x: (v["str"] if isinstance(v, dict) and "str" in v else v) for x, v in data.items()
+                            if x not in ("a", "b", "c", "expected", "violated", "failing_input")}
+        data["reproduce"] = ("bin/check C29; or: from ufl.classes import *; from elements import *; import utils-free "
+                             "eval() of failing_input (reprs are eval()-able with py/elements.py as `utils`), then "
+                             "evaluate the violated law (cmp_expr / a+b == b+a / a*b == b*a / inner)")
         if len(run.violations) < 8:
             run.violation(data, True)
     if gen_errors and not viol:
